@@ -58,6 +58,13 @@ def _cases(fam, prec, part, tier):
                 for step in range(1, 8):
                     for bs in (1, 2, 3, 5, 11):
                         out.append({'fam': fam, 'prec': prec, 'runs': [a, b], 'step': step, 'bs': bs})
+        # a refused run() in the middle (a container whose traces have another length: refused at its first batch) adds nothing: no column, no trace
+        for a in (3, 5, 7, 10):
+            for b in (2, 4):
+                for step in (2, 3, 4, 5, 10):
+                    for bs in (1, 3, 11):
+                        out.append({'fam': fam, 'prec': prec, 'runs': [a, 'F', b], 'step': step, 'bs': bs})
+        out.append({'fam': fam, 'prec': prec, 'runs': [5, 'F', 'F', 2], 'step': 2, 'bs': 2})
         if tier == 'thorough':
             for a, b, c in ((1, 1, 1), (2, 3, 2), (4, 1, 5), (3, 3, 3)):
                 for step in range(1, 8):
@@ -163,6 +170,20 @@ def _case(col, h, c, np, TOL):
     run_of_point = []
     for ri, n in enumerate(c['runs']):
         before = len(a._verif_log)
+        if n == 'F':
+            ct0 = a.convergence_traces; cols0 = 0 if ct0 is None else ct0.shape[-1]; sc0 = np.array(a.scores)
+            try:
+                with h.asys.BatchSize(bs):
+                    a.run(h.s.Container(h.asys.ths_of({k: v[lo:lo + 3] for k, v in h.pool.items()}), frame=slice(0, h.pool['samples'].shape[1] - 1)))
+                col.count('refused_run_not_refused'); return                 # whether such a container is refused is C16's business; nothing to judge here
+            except Exception:
+                pass
+            col.transitions += 1; col.count('refused_runs')
+            ct1 = a.convergence_traces; cols1 = 0 if ct1 is None else ct1.shape[-1]
+            if cols1 != cols0 or a.processed_traces != lo or not _same(np, a.scores, sc0, True, tol):
+                col.violation('C08/%s/refused-run-adds-a-column' % fam, '%s: a run() refused at its first batch left %d convergence columns (%d before), %d processed traces (%d before)' % (label, cols1, cols0, a.processed_traces, lo), c)
+            run_last_col.append(cols1 - 1)
+            continue
         try:
             with h.asys.BatchSize(bs):
                 a.run(h.container(lo, lo + n))
